@@ -33,6 +33,7 @@ type c05res struct {
 	ver         int
 	noStore     bool
 	pastExpires bool
+	history     string        // non-empty: answer this (uncacheable) way instead
 	gate        chan struct{} // closed = open
 	arrived     chan struct{} // first request reached the origin
 	arrOnce     sync.Once
@@ -65,8 +66,19 @@ func (w *c05world) handler(rw http.ResponseWriter, q *http.Request, rec *rig.Ori
 		rec.AppendNote(";gate-timeout")
 	}
 	w.mu.Lock()
-	ver, noStore := res.ver, res.noStore
+	ver, noStore, history := res.ver, res.noStore, res.history
 	w.mu.Unlock()
+	switch history {
+	case "404", "503":
+		code := map[string]int{"404": 404, "503": 503}[history]
+		rw.Header().Set("Content-Type", "text/plain")
+		rw.WriteHeader(code)
+		fmt.Fprintf(rw, "not there yet (%d)", code)
+		return
+	case "no-store":
+		rig.ServeBody(rw, res.resNo, 99, 20000, map[string]string{"Cache-Control": "no-store"})
+		return
+	}
 	if inm := q.Header.Get("If-None-Match"); inm != "" && inm == rig.ETag(res.resNo, ver) {
 		rw.Header().Set("ETag", inm)
 		rw.WriteHeader(304)
@@ -109,6 +121,9 @@ type c05burst struct {
 	// "default-1ns" = force_default_max_age with default_max_age 1 ns; "past-expires" = ignore_cache_control (every
 	// 200 GET is stored) with an origin Expires in the past
 	ZeroLife string `json:"zero_lifetime,omitempty"`
+	// History: what the same URL answered once before it became the cacheable resource of this burst:
+	// "" | "404" | "503" | "no-store"
+	History string `json:"earlier_answer_for_this_url,omitempty"`
 }
 
 func c05one(r *core.Recorder, w *c05world, p *rig.ProxyRig, o *rig.Origin, mode rig.Mode, bu c05burst, resNo int) {
@@ -133,6 +148,20 @@ func c05one(r *core.Recorder, w *c05world, p *rig.ProxyRig, o *rig.Origin, mode 
 	key := cache.MakeFromRequest(hr)
 	target := "/" + bu.ID
 
+	if bu.History != "" {
+		// the URL's earlier life: one request that got an answer which cannot be stored
+		w.mu.Lock()
+		res.history = bu.History
+		w.mu.Unlock()
+		close(res.gate)
+		rig.Do(p, mode, o.Addr, rig.Req{Target: target})
+		w.mu.Lock()
+		res.history = ""
+		w.mu.Unlock()
+		res.gate = make(chan struct{})
+		res.arrived = make(chan struct{})
+		res.arrOnce = sync.Once{}
+	}
 	// preparation for fresh / stale states
 	if bu.State != "cold" {
 		close(res.gate)
@@ -225,7 +254,7 @@ func c05one(r *core.Recorder, w *c05world, p *rig.ProxyRig, o *rig.Origin, mode 
 	}
 	r.Count("bursts_with_confirmed_overlap", 1)
 	r.Count("coalesced_requests_observed", int64(bu.N))
-	r.Nontrivial(bu.N, bu.State, bu.Outcome, bu.Perturb, bu.Who, bu.Mode, bu.Backend, bu.ZeroLife)
+	r.Nontrivial(bu.N, bu.State, bu.Outcome, bu.Perturb, bu.Who, bu.Mode, bu.Backend, bu.ZeroLife, bu.History)
 
 	var mine []rig.OriginReq
 	for _, g := range o.Since(seqBefore) {
@@ -270,6 +299,9 @@ func c05one(r *core.Recorder, w *c05world, p *rig.ProxyRig, o *rig.Origin, mode 
 		bv := rig.CheckFull(resp.Body, 20000)
 		if resp.Err != nil || resp.Status != 200 || bv.Kind != "complete" || bv.R != resNo || bv.V != wantVer {
 			sig := fmt.Sprintf("C05:client-without-full-answer:%s:%s:%s-perturbed:%s", bu.State, bu.Outcome, perturbedRole, bu.Perturb)
+			if bu.History != "" {
+				sig += ":after-" + bu.History
+			}
 			r.Violation("C05", sig, fmt.Sprintf("client %d (%s) of a burst of %d got status %d err=%v body=%s; expected 200 with the complete v%d", i, role(i), bu.N, resp.Status, resp.Err, bv, wantVer), cs, wit)
 			break
 		}
@@ -299,7 +331,21 @@ func c05one(r *core.Recorder, w *c05world, p *rig.ProxyRig, o *rig.Origin, mode 
 		}
 	}
 	if n < lo || n > hi {
-		r.Violation("C05", fmt.Sprintf("C05:origin-fetch-count:%s:%s:%s", bu.State, bu.Outcome, bu.Perturb), fmt.Sprintf("%d overlapping identical GETs (%s, %s, %s) caused %d origin requests; expected %d..%d", bu.N, bu.State, bu.Outcome, bu.Perturb, n, lo, hi), cs, wit)
+		r.Violation("C05", fmt.Sprintf("C05:origin-fetch-count:%s:%s:%s%s", bu.State, bu.Outcome, bu.Perturb, map[bool]string{true: ":after-" + bu.History, false: ""}[bu.History != ""]), fmt.Sprintf("%d overlapping identical GETs (%s, %s, %s) caused %d origin requests; expected %d..%d", bu.N, bu.State, bu.Outcome, bu.Perturb, n, lo, hi), cs, wit)
+	}
+	if bu.Outcome == "cacheable" && bu.Perturb == "none" && bu.ZeroLife == "" && !bu.Tiny {
+		seq2 := o.LastSeq()
+		after := rig.Do(p, mode, o.Addr, rig.Req{Target: target})
+		extra := 0
+		for _, g := range o.Since(seq2) {
+			if strings.HasPrefix(g.Note, bu.ID) {
+				extra++
+			}
+		}
+		if after.Err == nil && extra > 0 {
+			r.Violation("C05", fmt.Sprintf("C05:not-served-from-the-store-after-the-burst:%s%s", bu.State, map[bool]string{true: ":after-" + bu.History, false: ""}[bu.History != ""]),
+				fmt.Sprintf("after %d coalesced GETs stored the cacheable answer, one more GET caused %d further origin requests", bu.N, extra), cs, wit)
+		}
 	}
 	if bu.State == "stale-304" || bu.State == "stale-200" {
 		cond := 0
@@ -398,6 +444,10 @@ func c05Run(b core.Batch, r *core.Recorder) {
 		for _, st := range []string{"cold", "stale-304"} {
 			emit(c05burst{N: ns[i%len(ns)], State: st, Outcome: "cacheable", Perturb: "none", ZeroLife: zl})
 		}
+	}
+	// a URL that once answered something unstorable and has become cacheable since
+	for _, hist := range []string{"404", "503", "no-store"} {
+		emit(c05burst{N: ns[i%len(ns)], State: "cold", Outcome: "cacheable", Perturb: "none", History: hist})
 	}
 	for k := 0; k < b.Int("random", 10); k++ {
 		n := ns[rng.IntN(len(ns))]
